@@ -89,11 +89,59 @@ def install(spec: Spec):
         return ex.read_field(MOD, 'g$loop_running')
     spec.specfuns['loop_running'] = sf_loop_running
 
-    spec.fn('EventBus.cleanup_event_history', file=S, qual='EventBus.cleanup_event_history', params={'self': 'EventBus'}, returns='int',
-            modifies=[('event_history', 'self')], allocates=False, trusted=True,
+    # ------------------------------------------------------------------ cleanup_event_history (C13)
+    from pyvc.models import dt_key as _dt_key
+    spec.methods[('datetime', 'timestamp')] = lambda ex, n, awaited, recv: V(parse_ty('real'), _dt_key(recv.term))
+    CLASSES_IN_ORDER = ['completed_events', 'started_events', 'pending_events']
+
+    def extend_pre(ex, n):
+        """k-th `events_to_remove.extend(...)` in source order removes from the k-th status class: completed, then started, then pending."""
+        calls = [c for c in _ast.walk(ex.fn_node) if isinstance(c, _ast.Call) and _ast.unparse(c.func) == 'events_to_remove.extend']
+        calls.sort(key=lambda c: (c.lineno, c.col_offset))
+        k = [i for i, c in enumerate(calls) if c is n][0]
+        if k >= len(CLASSES_IN_ORDER):
+            ex.oblige('callsite:events_to_remove.extend/requires', 'at_most_three_classes', z3.BoolVal(False), ['C13'])
+            return
+        env = dict(ex.st.env)
+        env['$arg'] = ex.refresh(ex.eval(n.args[0]))
+        L = CLASSES_IN_ORDER[k]
+        earlier = ' + '.join('len(%s)' % c for c in CLASSES_IN_ORDER[:k]) or '0'
+        clauses = [
+            ('removes_a_prefix_of_its_class', "len(arg) <= len(%s) and forall(lambda t: implies(0 <= t and t < len(arg), arg[t] == %s[t][0]))" % (L, L)),
+            ('class_is_sorted_oldest_first', "forall(lambda i, j: implies(0 <= i and i < j and j < len(%s), %s[i][1].event_created_at.timestamp() <= %s[j][1].event_created_at.timestamp()))" % (L, L, L)),
+            ('earlier_classes_fully_removed_first', "len(events_to_remove) == %s" % earlier),
+            ('removes_no_more_than_needed', "len(events_to_remove) + len(arg) <= len(self.event_history) - self.max_history_size"),
+        ]
+        env['arg'] = env.pop('$arg')
+        for label, expr in clauses:
+            ex.oblige('callsite:events_to_remove.extend#%d(%s)/requires' % (k, L), label, ex.spec_bool(expr, env), ['C13'])
+        ex.st.flags['extends_seen'] = ex.st.flags.get('extends_seen', 0) + 1
+
+    CLASS_OF = {'pending_events': "== 'pending'", 'started_events': "== 'started'"}
+    PART_INV = [('partition_counts', 'len(pending_events) + len(started_events) + len(completed_events) == loop_i', ['C13']),
+                ('pending_are_pending', "forall(lambda k: implies(0 <= k and k < len(pending_events), pending_events[k][1].event_status == 'pending' and pending_events[k][0] in self.event_history "
+                                        "and self.event_history[pending_events[k][0]] is pending_events[k][1]))", ['C13']),
+                ('started_are_started', "forall(lambda k: implies(0 <= k and k < len(started_events), started_events[k][1].event_status == 'started' and started_events[k][0] in self.event_history "
+                                        "and self.event_history[started_events[k][0]] is started_events[k][1]))", ['C13']),
+                ('completed_are_neither', "forall(lambda k: implies(0 <= k and k < len(completed_events), completed_events[k][1].event_status != 'pending' and completed_events[k][1].event_status != 'started' "
+                                          "and completed_events[k][0] in self.event_history and self.event_history[completed_events[k][0]] is completed_events[k][1]))", ['C13'])]
+    spec.fn('EventBus.cleanup_event_history', file=S, qual='EventBus.cleanup_event_history', params={'self': 'EventBus'}, returns='int', allocates=False, wf_fields=['event_history'],
+            locals={'pending_events': 'list[tuple[str,BaseEvent]]', 'started_events': 'list[tuple[str,BaseEvent]]', 'completed_events': 'list[tuple[str,BaseEvent]]',
+                    'events_to_remove': 'list[str]'},
+            modifies=[('event_history', 'self')],
+            callsites={'events_to_remove.extend': {'pre': extend_pre}},
+            loops={0: {'inv': PART_INV},
+                   1: {'inv': [('one_entry_removed_per_id', 'len(self.event_history) == len(loop_old(self.event_history)) - loop_i', ['C13']),
+                               ('remaining_ids_still_present', 'forall(lambda t: implies(loop_i <= t and t < len(loop_seq), loop_seq[t] in self.event_history))', ['C13']),
+                               ],
+                       'assume_entry': [('LEMMA_removed_ids_are_distinct_history_keys',
+                                         'forall(lambda t: implies(0 <= t and t < len(loop_seq), loop_seq[t] in self.event_history)) and '
+                                         'forall(lambda t1, t2: implies(0 <= t1 and t1 < t2 and t2 < len(loop_seq), loop_seq[t1] != loop_seq[t2]))')]}},
             ensures=[('bound', 'implies(self.max_history_size is not None and self.max_history_size > 0, '
                                'len(self.event_history) == min(len(old(self.event_history)), self.max_history_size))', ['C13']),
-                     ('no_limit_no_change', 'implies(self.max_history_size is None or self.max_history_size == 0, self.event_history == old(self.event_history))', ['C13'])])
+                     ('no_limit_no_change', 'implies(self.max_history_size is None or self.max_history_size == 0, self.event_history == old(self.event_history))', ['C13']),
+                     ('nothing_removed_when_within_limit', 'implies(self.max_history_size is not None and len(old(self.event_history)) <= self.max_history_size, self.event_history == old(self.event_history))', ['C13']),
+                     ('returns_number_removed', 'result == len(old(self.event_history)) - len(self.event_history)', ['C13'])])
     spec.methods[('EventBus', 'cleanup_event_history')] = 'EventBus.cleanup_event_history'
 
     # ------------------------------------------------------------------ EventBus.dispatch (C07 C09 C13 C14)
@@ -101,7 +149,7 @@ def install(spec: Spec):
                   "and ctx('current_handler_id') in ctx('current_event').event_results and event is not ctx('current_event')")
     CH = "ctx('current_event').event_results[ctx('current_handler_id')].event_children"
     NO_TRACE = [
-        ('history_unchanged', 'self.event_history == old(self.event_history)', ['C14']),
+        ('history_unchanged', 'self.event_history == old(self.event_history)', ['C14', 'C15']),
         ('queue_unchanged', 'implies(old(self.event_queue) is not None, self.event_queue.q_items == old(self.event_queue.q_items))', ['C14']),
         ('children_unchanged', "unchanged('event_children')", ['C14']),
     ]
